@@ -271,6 +271,7 @@ def run(chk: Check, only_numeric: bool = False) -> None:
         run_coerce(chk, ix)
         run_env_link(chk, ix)
         run_defaults_chain(chk, ix)
+        run_silent_errors(chk, ix, funcs, sites)
         pass_order(chk, ix)
 
 
@@ -539,3 +540,25 @@ def run_defaults_chain(chk: Check, ix) -> None:
             r8.ok(key, g.loc(a), "registration is not own-body only any more; lookup shape not required")
         else:
             r8.violation(key, g.loc(a), f"`{norm(a)}` is not inside a loop over cls.mro[1:] that stops at the first hit ({'loop over ' + it if it else 'no loop'}): with `class A: x = 1`, `class B(A): pass`, `class C(B): y = 2` compiled separately, C's setup finds no declaration on B and never runs A's, so C().x is unset")
+
+
+def run_silent_errors(chk: Check, ix, funcs, sites) -> None:
+    """R05.9: an error value is returned only after something that can have set the exception."""
+    r9 = chk.rule("R05.9", "a lib-rt function bound to a primitive with a failing error kind (ERR_MAGIC / ERR_FALSE / ERR_NEG_INT) returns its error value (NULL / false / -1) only on paths where a call that can set an exception precedes the return (structured walk over clang's statement tree; a fixed list of pure accessors does not count): generated code branches to the error handler on that value, and with no exception set CPython raises SystemError or the traceback code dereferences NULL", floor=100)
+    seen = set()
+    for m, call, kw, cname in sites:
+        e = funcs.get(cname)
+        ek = kw.get("error_kind")
+        if e is None or ek is None or "silent_error_returns" not in e or cname in seen:
+            continue
+        ekn = norm(ek)
+        if ekn not in ("ERR_MAGIC", "ERR_FALSE", "ERR_NEG_INT", "ERR_MAGIC_OVERLAPPING"):
+            continue
+        seen.add(cname)
+        key = f"{m.name}: {cname} ({ekn}) sets an exception before returning its error value"
+        where = f"{m.relpath}:{call.lineno}"
+        lines = [l for l in e["silent_error_returns"] if l and l > 0]
+        if lines:
+            r9.violation(key, where, f"{cname} returns its error value at line {', '.join(map(str, lines))} of its C body on a path with no call that could have set an exception")
+        else:
+            r9.ok(key, where)
